@@ -270,33 +270,46 @@ Definition vl_empty (vl : validation) : bool :=
 Definition required_only_generates (E : env) (c : ctx) (fs : list (nat * bool * att)) : bool :=
   existsb (fun f => match f with (_, r, a) => r && req_emitted E c a end) fs.
 
-Fixpoint hv_walk (E : env) (c : ctx) (fuel : nat) (seen : list nat) (a : att) {struct fuel} : bool * list nat :=
-  match fuel with
-  | O => (false, seen)
-  | S f =>
-    match a with
-    | APrim vl _ _ => (negb (vl_empty vl), seen)
-    | AAlias id => (negb (vl_empty (snd (alias_def E id))), seen)
-    | AArray vl e => if negb (vl_empty vl) then (true, seen) else hv_walk E c f seen e
-    | AMap vl k e =>
-        if negb (vl_empty vl) then (true, seen)
-        else let '(b, s1) := hv_walk E c f seen k in
-             if b then (true, s1) else hv_walk E c f s1 e
-    | AObject fs =>
-        let own := if c_ptr c then existsb (fun f => match f with (_, r, _) => r end) fs
-                   else required_only_generates E c fs in
-        if own then (true, seen)
-        else fold_left (fun (acc : bool * list nat) (fld : nat * bool * att) =>
-                          if fst acc then acc else hv_walk E c f (snd acc) (snd fld)) fs (false, seen)
-    | AUser id =>
-        if existsb (Nat.eqb id) seen then (false, seen)
-        else hv_walk E c f (id :: seen) (user_body E id)
-    end
+(* the walk over one attribute tree (codegen.walk): structural on the attribute; `visit` is
+   what happens when a user type that has not been seen yet is entered *)
+Fixpoint hv_att (E : env) (c : ctx) (visit : list nat -> nat -> bool * list nat) (seen : list nat) (a : att)
+  {struct a} : bool * list nat :=
+  match a with
+  | APrim vl _ _ => (negb (vl_empty vl), seen)
+  | AAlias id => (negb (vl_empty (snd (alias_def E id))), seen)
+  | AArray vl e => if negb (vl_empty vl) then (true, seen) else hv_att E c visit seen e
+  | AMap vl k e =>
+      if negb (vl_empty vl) then (true, seen)
+      else let '(b, s1) := hv_att E c visit seen k in
+           if b then (true, s1) else hv_att E c visit s1 e
+  | AObject fs =>
+      let own := if c_ptr c then existsb (fun f => match f with (_, r, _) => r end) fs
+                 else required_only_generates E c fs in
+      if own then (true, seen)
+      else (fix flds (fs : list (nat * bool * att)) (seen : list nat) {struct fs} : bool * list nat :=
+              match fs with
+              | [] => (false, seen)
+              | (_, _, fa) :: r =>
+                  let '(b, s1) := hv_att E c visit seen fa in
+                  if b then (true, s1) else flds r s1
+              end) fs seen
+  | AUser id =>
+      if existsb (Nat.eqb id) seen then (false, seen) else visit (id :: seen) id
   end.
 
-Definition hv_fuel (E : env) : nat := 4 + 8 * (length (e_users E) + 4).
+(* entering user types: every entry adds a type that was not seen before, so the number of
+   nested entries is bounded by the number of declared user types (+ 1 for an undeclared
+   one, whose body is empty); hv_fuel is that bound (hv_sound in Lemmas.v proves that it
+   is never exhausted) *)
+Fixpoint hv_user (E : env) (c : ctx) (fuel : nat) (seen : list nat) (id : nat) {struct fuel} : bool * list nat :=
+  match fuel with
+  | O => (false, seen)
+  | S f => hv_att E c (hv_user E c f) seen (user_body E id)
+  end.
+
+Definition hv_fuel (E : env) : nat := length (e_users E) + 2.
 Definition has_validations (E : env) (c : ctx) (id : nat) : bool :=
-  fst (hv_walk E c (hv_fuel E + 64) [] (AUser id)).
+  fst (hv_user E c (hv_fuel E) [id] id).
 
 (* ------------------------------------------------------------------ SPEC *)
 Definition kw_viols (err : kw -> errname) (ks : list kw) (v : value) (p : path) : list viol :=
@@ -632,6 +645,16 @@ Fixpoint wf_att (E : env) (a : att) : bool :=
   end.
 
 Definition is_user (a : att) : bool := match a with AUser _ => true | _ => false end.
+
+(* no user type occurs in the attribute (parameters, headers, cookies) *)
+Fixpoint no_user (a : att) : bool :=
+  match a with
+  | APrim _ _ _ | AAlias _ => true
+  | AArray _ e => no_user e
+  | AMap _ k e => no_user k && no_user e
+  | AObject fs => forallb (fun f => no_user (snd f)) fs
+  | AUser _ => false
+  end.
 
 (* every user type is an object / array / map / primitive body, never a bare reference
    to another user type *)
